@@ -118,7 +118,9 @@ def parse_mc(out):
         r['error'] = 'parse'
     for m in _RE_COV.finditer(out):
         name, line, mod, a, b = m.groups()
-        r['actions'][name] = r['actions'].get(name, 0) + int(a)
+        # "<Action ...>: distinct:taken" - an action is exercised when it was *taken*, even if every
+        # successor had already been found through another action
+        r['actions'][name] = r['actions'].get(name, 0) + int(b)
     return r
 
 
